@@ -1,6 +1,8 @@
 CONSTANTS
   Subs = {1, 2}
   RegisterBeforeInit = FALSE
+  Literal = {}
+  ReleaseOnRefusal = TRUE
   Streaming = {1}
 INIT GenInit
 NEXT GenNext
